@@ -3,6 +3,16 @@
 import json
 
 CLAIMED = {
+ "C02": dict(
+   text="Static dependence analysis (backward slices over SSA with all-callers parameter semantics) of agreement clauses between the MPD generator and the segment server: at every call of the availability test, in every addressing mode, the availability time depends on availabilityStartTime, the window on timeShiftBufferDepth, the offset on availabilityTimeOffset and 'now' on the request time; every startNumber the MPD generator stores depends on the configured start number that the server's number->segment mapping subtracts; the SegmentTimeline generator's first number and last-entry bound depend on the window times and on the availability time offset. A missing dependence is definite (the slice over-approximates). Numeric equality of declared and served times, durations and numbers is not decided.",
+   note="Explicit data dependence only (no control dependence); dependence is over-approximated, so silence is not a proof of agreement; start-up code is assumed not to see request configuration.",
+   technique="static analysis: inter-procedural backward dependence slices over SSA (must-depend rules)",
+   ref="DESIGN.md §2 E4, §3 C02"),
+ "C04": dict(
+   text="Static analysis of structural necessary conditions of the availability answers: (a) every error that may carry not-found / too-early / gone is returned on all non-nil paths of every function between the segment lookup and the handler, wrapped only with %w, and the handler's errors.Is/As branches answer 404/425/410; (b) every call of the availability test gets arguments that depend on start time, tsbd, ato and the request time, and the remaining time in the 425 answer depends on availability time, now and ato; (c) in every copy of the number->segment wrap arithmetic the index is proven in range (numbers below startNumber are refused first). Transition instants, monotonicity and the tsbd margin are not decided.",
+   note="Errors are assumed to travel through returns and fmt.Errorf only; correlated-flag idiom recognised; interval reasoning as in C08.",
+   technique="static analysis: SSA path rule (sentinel errors returned) + status table rule + dependence slices + interval rule on wrap index",
+   ref="DESIGN.md §2 E4/E5, §3 C04"),
  "C07": dict(
    text="Static lock-discipline and aliasing analysis of the livesim2 server: every write to server-lifetime state (including bytes that library objects keep aliasing) by request-serving code, and every access that may run in parallel with it, must hold the owning mutex; no handler-reachable source of non-determinism; every early-exit range over a server map is a reviewed instance; sync.Pool objects are not used after Put. Necessary conditions of purity and race-freedom for all histories and interleavings; byte equality of responses is not decided.",
    note="Origin/alias analysis is field-based and type-directed (no points-to analysis available); library aliasing and mutators are the listed ones; VTA call graph; known findings: unsynchronised ingest-manager tables.",
